@@ -245,53 +245,34 @@ example : streamed { wCfg with maxBody := 3, decompress := false } [bStream.take
 
 /-! ### the strict reader whose framing decision is stated independently of the model (`Spec.strictReadAll`) -/
 
-/-- the full statement against the independent strict reader, `decompress_response` off (so that the recorded gzip
-    leniency is out of the picture) -/
-def client_agrees_with_strict_full : Prop :=
-  ∀ (cfg : Cfg) (Z : Bytes → GzRes) (s : Bytes) (eof : Bool), cfg.decompress = false →
-    (run cfg Z [s] eof).toSpec = Spec.strictReadAll cfg Z s eof
-
-/-- **client_agrees_with_strict_partial**: `decompress_response` off; if the Content-Length list of the final
-    response (when it has one) is separated by comma + SP/HTAB only (`Spec.clOws`, decidable), the fetch returns
-    exactly what the independent strict reader extracts and fails exactly when it rejects. -/
-theorem client_agrees_with_strict_partial (cfg : Cfg) (Z : Bytes → GzRes) (s : Bytes) (eof : Bool)
-    (hd : cfg.decompress = false)
-    (hs : ∀ h ∈ Spec.finalHeaders cfg (s.length + 1) s, Spec.clOws h = true) :
+/-- **client_agrees_with_strict**: `decompress_response` off: the fetch returns exactly what the independent strict
+    reader `Spec.strictReadAll` extracts and fails exactly when it rejects — no side condition (the former
+    `client_agrees_with_strict_full`, refuted until the Content-Length-list fix, now holds). -/
+theorem client_agrees_with_strict (cfg : Cfg) (Z : Bytes → GzRes) (s : Bytes) (eof : Bool)
+    (hd : cfg.decompress = false) :
     (run cfg Z [s] eof).toSpec = Spec.strictReadAll cfg Z s eof := by
-  rw [strictReadAll_eq cfg Z s eof hs]
+  rw [strictReadAll_eq cfg Z s eof]
   exact client_agrees_with_spec cfg Z s eof hd
 
-/-- **client_agrees_with_strict_gz_partial**: the same with `decompress_response` on, under the two explicit side
-    conditions (`ZOk`: no data behind the first gzip member; `Spec.clOws`). -/
-theorem client_agrees_with_strict_gz_partial (cfg : Cfg) (Z : Bytes → GzRes) (s : Bytes) (eof : Bool)
-    (h2 : ∀ raw ∈ rawGzBody cfg [s] eof, ZOk (Z raw))
-    (hs : ∀ h ∈ Spec.finalHeaders cfg (s.length + 1) s, Spec.clOws h = true) :
+/-- **client_agrees_with_strict_gz**: the same with `decompress_response` on, under the one explicit side condition
+    left (`ZOk`: no data behind the first gzip member — known finding `gz-trail`). -/
+theorem client_agrees_with_strict_gz (cfg : Cfg) (Z : Bytes → GzRes) (s : Bytes) (eof : Bool)
+    (h2 : ∀ raw ∈ rawGzBody cfg [s] eof, ZOk (Z raw)) :
     (run cfg Z [s] eof).toSpec = Spec.strictReadAll cfg Z s eof := by
-  rw [strictReadAll_eq cfg Z s eof hs]
+  rw [strictReadAll_eq cfg Z s eof]
   exact client_agrees_with_spec_gz cfg Z s eof h2
 
-/-- the witness: a Content-Length list whose second member is preceded by U+00A0 (Python's `\s` in `re.split(r",\s*")`) -/
+/-- the former witness of the `cl-list-space` finding: a Content-Length list whose second member is preceded by
+    U+00A0 (Python's `\s`, no longer accepted by `re.split(r",[ \t]*")`) -/
 def wNbsp : Bytes := "HTTP/1.1 200 OK\r\nContent-Length: 1,\xa01\r\n\r\nA".toList.map Char.toNat
 def wCfgPlain : Cfg := { isHead := false, decompress := false, maxBody := 100 }
 
-theorem witness_nbsp_model : run wCfgPlain wZ [wNbsp] true =
-    .ok 200 [79, 75] [("Content-Length".toList.map Char.toNat, [49])] [65] := by decide
+/-- rejected by the code and by the strict reader -/
+example : run wCfgPlain wZ [wNbsp] true = .err .closed ∧ Spec.strictReadAll wCfgPlain wZ wNbsp true = none := by decide
 
-theorem witness_nbsp_strict : Spec.strictReadAll wCfgPlain wZ wNbsp true = none := by decide
-
-/-- **cl_list_space_refuted**: the code as it is accepts `Content-Length: 1,<NBSP>1` (known finding
-    `cl-list-space`), which the strict reader rejects: the side condition `Spec.clOws` is necessary. -/
-theorem cl_list_space_refuted : ¬ client_agrees_with_strict_full := by
-  intro h
-  have := h wCfgPlain wZ wNbsp true rfl
-  rw [witness_nbsp_model, witness_nbsp_strict] at this
-  simp [Res.toSpec] at this
-
-example : (∀ h ∈ Spec.finalHeaders wCfgPlain (wNbsp.length + 1) wNbsp, Spec.clOws h = true) → False := by decide
-
-/-- non-vacuity of the side condition: an ordinary list `1, 1` satisfies it and is read as 1 -/
+/-- an ordinary list `1, 1` is read as 1 by both -/
 def wList : Bytes := "HTTP/1.1 200 OK\r\nContent-Length: 1, 1\r\n\r\nA".toList.map Char.toNat
-example : (∀ h ∈ Spec.finalHeaders wCfgPlain (wList.length + 1) wList, Spec.clOws h = true) ∧
+example : run wCfgPlain wZ [wList] true = .ok 200 [79, 75] [("Content-Length".toList.map Char.toNat, [49])] [65] ∧
     Spec.strictReadAll wCfgPlain wZ wList true =
       some (.ok 200 [79, 75] [("Content-Length".toList.map Char.toNat, [49])] [65]) := by decide
 
